@@ -173,10 +173,12 @@ class Run:
     def mine(self, i):
         return i % self.nshards == self.shard
 
-    def time_left(self):
+    def time_left(self, frac=1.0):
+        """False once ``frac`` of the time cap is used up (a block of a check may be
+        given a share of the cap so that the blocks behind it are never starved)."""
         if self.time_cap is None:
             return True
-        left = _MONO() - self.t0 < self.time_cap
+        left = _MONO() - self.t0 < self.time_cap * frac
         if not left:
             self.capped = True
         return left
